@@ -1722,6 +1722,67 @@ def _early_return_to_else(stmts: list[ast.stmt]) -> list[ast.stmt]:
     return out
 
 
+def _inline_self_aliases(cls: ast.ClassDef, fn: ast.FunctionDef) -> ast.FunctionDef:
+    """Normalisation before the operator-stack census: `a, b = self.x, self.y` is split into single assignments, and a local that is
+    assigned exactly once, from `self.<attr>`, is replaced by that attribute read everywhere (the assignment is dropped).  Moving the
+    read is sound only if nothing can change the attribute in between: the function must not store to it, and -- lazy properties
+    write their private field when read -- it must not read a field both directly and through a property that returns it.  Otherwise
+    fail closed."""
+    import copy
+    fn = copy.deepcopy(fn)
+
+    class Split(ast.NodeTransformer):
+        def visit_Assign(self, n: ast.Assign):
+            if len(n.targets) == 1 and isinstance(n.targets[0], ast.Tuple) and isinstance(n.value, ast.Tuple) \
+                    and len(n.targets[0].elts) == len(n.value.elts) and all(isinstance(t, ast.Name) for t in n.targets[0].elts):
+                names = {t.id for t in n.targets[0].elts}
+                if not any(isinstance(x, ast.Name) and x.id in names for v in n.value.elts for x in ast.walk(v)):
+                    return [ast.copy_location(ast.Assign(targets=[t], value=v), n) for t, v in zip(n.targets[0].elts, n.value.elts)]
+            return n
+    fn = ast.fix_missing_locations(Split().visit(fn))
+    stores: dict[str, int] = {}
+    for n in ast.walk(fn):
+        if isinstance(n, ast.Name) and isinstance(n.ctx, (ast.Store, ast.Del)):
+            stores[n.id] = stores.get(n.id, 0) + 1
+    alias: dict[str, ast.Attribute] = {}
+    for st in fn.body:
+        if isinstance(st, ast.Assign) and len(st.targets) == 1 and isinstance(st.targets[0], ast.Name) and stores.get(st.targets[0].id) == 1 \
+                and _self_attr(st.value) is not None:
+            alias[st.targets[0].id] = st.value
+    if not alias:
+        return fn
+    # which private field a property returns
+    returns: dict[str, str] = {}
+    for st in cls.body:
+        if isinstance(st, ast.FunctionDef) and any(isinstance(d, ast.Name) and d.id == 'property' for d in st.decorator_list):
+            for r in ast.walk(st):
+                if isinstance(r, ast.Return) and r.value is not None and _self_attr(r.value):
+                    returns[st.name] = _self_attr(r.value)
+    aliased = {_self_attr(v) for v in alias.values()}
+    read_attrs = {_self_attr(n) for n in ast.walk(fn) if isinstance(n, ast.Attribute) and isinstance(n.ctx, ast.Load) and _self_attr(n)}
+    stored_attrs = {_self_attr(n) for n in ast.walk(fn) if isinstance(n, ast.Attribute) and isinstance(n.ctx, (ast.Store, ast.Del)) and _self_attr(n)}
+    for a in aliased:
+        if a in stored_attrs or returns.get(a) in stored_attrs:
+            raise TranslateError(f'sndscript.py: Sound.{fn.name}: a local holds self.{a} while the function assigns that attribute')
+        field = returns.get(a, a)
+        twins = {field} | {p for p, f in returns.items() if f == field}
+        if len((read_attrs | aliased) & twins) > 1:
+            raise TranslateError(f'sndscript.py: Sound.{fn.name}: a local holds self.{a} while the same stack is also read as '
+                                 f'{sorted(((read_attrs | aliased) & twins) - {a})} (a lazy property may create it in between)')
+
+    class Subst(ast.NodeTransformer):
+        def visit_Name(self, n: ast.Name):
+            if isinstance(n.ctx, ast.Load) and n.id in alias:
+                return ast.copy_location(copy.deepcopy(alias[n.id]), n)
+            return n
+
+        def visit_Assign(self, n: ast.Assign):
+            if len(n.targets) == 1 and isinstance(n.targets[0], ast.Name) and n.targets[0].id in alias:
+                return None
+            return self.generic_visit(n)
+    return ast.fix_missing_locations(Subst().visit(fn))
+
+
 def _snd_stack_census(fn: ast.FunctionDef, parse_one: ast.FunctionDef, init: ast.FunctionDef) -> tuple[list, list, dict]:
     """Writer: (block name written, attribute guarding the block, attribute serialised into it).
     Reader: (block name looked up, attribute the result is stored in).
@@ -2182,9 +2243,10 @@ def translate_text_writers() -> tuple[str, dict]:
     snd = _TextCensus('sndscript.py')
     snd.ann.setdefault('sounds', set()).add('list[str]')
     fn_snd = snd.walk('Sound.export')
-    written, read, sinfo = _snd_stack_census(fn_snd, snd.funcs['Sound.parse_one'], snd.funcs['Sound.__init__'])
     snd_cls = next(n for n in snd.tree.body if isinstance(n, ast.ClassDef) and n.name == 'Sound')
-    model_lines, model_side = _snd_stack_model(snd_cls, fn_snd, snd.funcs['Sound.parse_one'], sinfo)
+    fn_stk = _inline_self_aliases(snd_cls, fn_snd)      # locals that merely hold self.<stack> are read as that attribute
+    written, read, sinfo = _snd_stack_census(fn_stk, snd.funcs['Sound.parse_one'], snd.funcs['Sound.__init__'])
+    model_lines, model_side = _snd_stack_model(snd_cls, fn_stk, snd.funcs['Sound.parse_one'], sinfo)
     # ---- VMT
     vmt = _TextCensus('vmt.py')
     vmt.ann.setdefault('real_name', set()).add('str')
